@@ -38,6 +38,7 @@ type env struct {
 	byName    map[string]int
 	child     int
 	randChild int
+	modelHex  string // the input as it was given to the model for the current case
 	sigSeen   map[string]int
 }
 
@@ -196,6 +197,7 @@ func (e *env) run(family string, ti int, in codecx.Input) {
 			}
 		}
 		pred = e.d.Ask(fmt.Sprintf("dec %d %d %s %s", fuel, modelLimit, t.Ty, hexIn))
+		e.modelHex = hexIn
 	}
 	risky := pred == "fail diverge" || pred == "fail depth" || pred == "fail alloc" || (e.d == nil && strings.HasPrefix(family, "risky"))
 	if risky && !strings.HasPrefix(family, "risky") && family != "corpus" && family != "replay" {
@@ -296,10 +298,7 @@ func (e *env) judge(c, pred string, o codecx.Outcome, inLen int, family string) 
 	if in, err := codecx.ParseInput(hx); err == nil && in.Count == 0 {
 		raw = in.Suffix
 	}
-	sig := classify(res, o.Stack, ty, raw)
-	if strings.HasPrefix(res, "alloc-bound") {
-		sig = classify("fail oom", o.Stack, ty, raw)
-	}
+	sig := e.signature(res, pred, o.Stack, ty, raw)
 	detail := fmt.Sprintf("Decode of %d bytes: %s", inLen, trunc(res, 200))
 	if strings.HasPrefix(res, "alloc-bound") {
 		detail = fmt.Sprintf("Decode of %d bytes allocated %d bytes (bound 64·|b| + 64 MiB)", inLen, o.Alloc)
@@ -314,6 +313,54 @@ func (e *env) judge(c, pred string, o codecx.Outcome, inLen int, family string) 
 		}
 	}
 	e.r.Fail(trunc(c, 2000), sig, detail)
+}
+
+// signature classifies a failure of the real decoder. Resource failures (out of memory, allocation bound, timeout —
+// which of them a huge allocation ends in depends on the load of the machine) are classified by what the MODEL says
+// about the input: it predicts that the allocation budget is exceeded and names the allocation site whose requests
+// alone exceed it, or it predicts that the call depth is exceeded. A resource failure on an input for which the
+// model predicts a cheap decode stays unclassified (a new hang / leak), and so do panics and wrong values that do not
+// match a panic signature. Without a model (oracle-only mode) the stack trace decides.
+func (e *env) signature(res, pred, stack, ty string, raw []byte) string {
+	resource := res == "fail oom" || res == "fail hang" || res == "fail memory" || strings.HasPrefix(res, "alloc-bound")
+	if !resource && res != "fail stack-overflow" {
+		return classify(res, stack, ty, raw) // panics
+	}
+	if e.d == nil {
+		if strings.HasPrefix(res, "alloc-bound") {
+			return classify("fail oom", stack, ty, raw)
+		}
+		return classify(res, stack, ty, raw)
+	}
+	if pred == "fail depth" {
+		return "C02.unbounded-nesting" // stack overflow, or not even that far within the timeout
+	}
+	if res == "fail stack-overflow" {
+		return ""
+	}
+	limit := modelLimit
+	if pred != "fail alloc" {
+		if !strings.HasPrefix(res, "alloc-bound") {
+			return "" // the model expects a cheap decode: a genuinely new hang / memory problem
+		}
+		limit = 1 << 16 // in-process allocation above 64·|b| + 64 MiB although below the child threshold
+	}
+	switch e.d.Ask(fmt.Sprintf("allocsite %d %d %s %s", fuel, limit, ty, e.modelHex)) {
+	case "slice":
+		return "C02.slice-prealloc"
+	case "vararray":
+		return "C02.variant-array-amplification"
+	case "split":
+		return "C02.variant-dims-depth"
+	case "dims":
+		return "C02.variant-dims-prealloc"
+	case "mixed":
+		if strings.HasPrefix(res, "alloc-bound") {
+			return classify("fail oom", stack, ty, raw)
+		}
+		return classify(res, stack, ty, raw)
+	}
+	return ""
 }
 
 func splitCase(c string) (ty, hx string) {
